@@ -5,6 +5,7 @@ import Nstd.Xml.LemmasRt3
 import Nstd.Xml.LemmasPos
 import Nstd.Xml.LemmasComment
 import Nstd.Xml.LemmasPi
+import Nstd.Xml.EscapeMem
 /-
   Property C16 — XML parsing is total and safe; serialising then parsing is identity.
   Theorems about the model `Nstd.Xml.parse` / `Elem.toStr` of src/Document/Xml.cpp.
@@ -94,6 +95,17 @@ example : piBody [120, 109, 108, 32, 97, 61, 34, 49, 34, 63, 10, 32, 98] := by
     (`'"&<>` as entities, line breaks in attribute values as `&#10;` / `&#13;`). -/
 theorem escape_unescape (attr : Bool) (s : Bytes) : unescape (escape attr s) = s :=
   unescapeF_escape attr s _ (Nat.le_refl _)
+
+/-- Buffer management of `escapeString` (EscapeMem.lean: capacity arithmetic as coded — initial
+    `length + N`, `reserve(length + name + K + (end - i))` at every escape, capacities rounded by
+    `String::detach`; `N`, `K` and the rounding mask are regenerated from the sources on every run):
+    for every byte string and both modes no byte is ever written at or behind the reserved capacity
+    (no fault), the bytes in the buffer are exactly `escape attr s`, and the final length fits. -/
+theorem escape_no_overflow (attr : Bool) (s : Bytes) :
+    ∃ b, escapeMem attr s = some b ∧ b.out = escape attr s ∧ b.out.length ≤ b.cap := by
+  obtain ⟨b, h1, h2, h3⟩ := escLoop_ok attr s ⟨s.length + Generated.escInitialSlack, 0, []⟩ (by simp)
+  refine ⟨{ b with len := b.out.length }, ?_, by simpa using h2, h3⟩
+  simp only [escapeMem, h1, EscBuf.resize, if_pos h3]
 
 /-- Round trip through `Xml::toString` (header line + `Element::toString`) and `Xml::parse`:
     for every element tree with well-formed names, pairwise different attribute keys, arbitrary
